@@ -36,12 +36,14 @@ theorem facts_pop_success_path :
 /-- `Len`. -/
 theorem facts_len : soloSrc .addThenStore (init [9] [[.len]]) 1 = Gen.C11.lenOps := by decide
 
-/-- `PopWait(d)`, the part before the ticker, as the model has it: `d < 0` → loop of
-(`Pop`, return if ok, `Gosched`); otherwise one `Pop` (return if ok), and `d == 0` →
-return false.  (Positive durations — everything from the ticker on — are not modelled.) -/
+/-- `PopWait(d)` as the model has it: `d < 0` → loop of (`Pop`, return if ok, `Gosched`);
+otherwise one `Pop` (return if ok); `d == 0` → return false; else a ticker and a loop of
+(receive a tick, `Pop`, return if ok, return false if `now.Sub(begin) >= d`): exactly TWO
+exits in the ticker loop, the successful `Pop` first. -/
 theorem facts_popwait_shape :
-    Gen.C11.popWaitOps.takeWhile (· ≠ .ticker) =
-      [.cond "d < 0", .loop, .callPop, .ret, .gosched, .callPop, .ret, .cond "d == 0", .ret] := by
+    Gen.C11.popWaitOps =
+      [.cond "d < 0", .loop, .callPop, .ret, .gosched, .callPop, .ret, .cond "d == 0", .ret,
+       .ticker, .loop, .other "recv ticker.C", .callPop, .ret, .cond "now.Sub(begin) >= d", .ret] := by
   decide
 
 /-- The model's `PopWait(d<0)` alone on an empty list: the failing prefix of `Pop`
@@ -51,7 +53,13 @@ theorem facts_popwait_model :
       Gen.C11.popOps.take 2 ++ [.gosched] ++ Gen.C11.popOps.take 2 ++ [.gosched] ∧
     soloSrc .addThenStore (init [9] [[.popWait false]]) 7 = Gen.C11.popOps ∧
     soloSrc .addThenStore (init [9] [[.popWait true]]) 7 = Gen.C11.popOps ∧
-    (run .addThenStore (init [] [[.popWait false]]) [0, 0]).2.map (·.ret) = [none, some (.pop 0 false)] := by
+    (run .addThenStore (init [] [[.popWait false]]) [0, 0]).2.map (·.ret) = [none, some (.pop 0 false)] ∧
+    -- PopWait(d>0), expiry on the first tick, empty list: Pop, tick, Pop, return false
+    soloSrc .addThenStore (init [] [[.popWaitT 1]]) 5 =
+      Gen.C11.popOps.take 2 ++ [.ticker] ++ Gen.C11.popOps.take 2 ∧
+    (run .addThenStore (init [] [[.popWaitT 1]]) [0, 0, 0, 0, 0]).2.map (·.ret) =
+      [none, none, none, none, some (.pop 0 false)] ∧
+    soloSrc .addThenStore (init [9] [[.popWaitT 1]]) 7 = Gen.C11.popOps := by
   decide
 
 end Golib.C11
